@@ -24,7 +24,7 @@ func init() {
 // ---------------------------------------------------------------- C02
 
 func checkC02(rep *Report, rng *Rng, tier string) {
-	n := 220
+	n := 300
 	if tier == "thorough" {
 		n = 4000
 	}
@@ -38,15 +38,18 @@ func checkC02(rep *Report, rng *Rng, tier string) {
 	}, nil)
 	modelCompare(rep, "C02")
 	rep.Extra["steps_compared_with_byte_level_model_DStore"] = dmodelSteps
+	rep.Extra["histories_satisfying_history_ok_of_c02_history"] = dmodelHistOK
+	rep.Extra["histories_outside_history_ok"] = dmodelHistNotOK
 }
 
 // ---------------------------------------------------------------- C04
 
 func checkC04(rep *Report, rng *Rng, tier string) {
-	n := 250
+	n := 350
 	if tier == "thorough" {
 		n = 4000
 	}
+	modelOn = true
 	rep.Rule = "seeded histories interleaving mutations, flushes, evictions, collection removal/replacement and Close of the original with creation of 1-4 snapshots (also snapshots of snapshots), reads through them, refused Set/Delete/Flush, snapshot FlushRevert and closes in any order; after every step the full contents of the original and of every open snapshot are compared with the frozen reference maps, the recycling invariants are evaluated on the heap dump, and the file's write log must show no write/truncate caused by a snapshot-side call; non-trivial = at least one snapshot and 8 ops"
 	HistoryLoop(rep, rng, n, func(r *Rng, i int) (RunCfg, []Op, string) {
 		g := GenCfg{FileBacked: r.Chance(2, 3), NColls: 1 + r.Intn(3), NOps: 30 + r.Intn(60), Structural: true, CollMgmt: r.Chance(1, 2), PrioMode: r.Intn(4), Visits: r.Chance(1, 2), NKeys: 6 + r.Intn(20)}
@@ -76,6 +79,7 @@ func checkC04(rep *Report, rng *Rng, tier string) {
 		d := CfgDesc{Check: "C04", FileBacked: g.FileBacked, DumpEvery: true, Post: "churn"}
 		return d.RunCfg(), ops, d.String()
 	}, nil)
+	modelCompare(rep, "C04")
 }
 
 // ---------------------------------------------------------------- C06
@@ -127,7 +131,7 @@ func depthOracle(w *World, i int, op Op, obs string) *Mismatch {
 }
 
 func checkC06(rep *Report, rng *Rng, tier string) {
-	n := 220
+	n := 300
 	if tier == "thorough" {
 		n = 4000
 	}
@@ -143,7 +147,7 @@ func checkC06(rep *Report, rng *Rng, tier string) {
 // ---------------------------------------------------------------- C09 (dynamic part)
 
 func checkC09(rep *Report, rng *Rng, tier string) {
-	n := 250
+	n := 400
 	if tier == "thorough" {
 		n = 4000
 	}
@@ -251,10 +255,11 @@ func churnOracle(w *World, i int, op Op, obs string) *Mismatch {
 }
 
 func checkC10(rep *Report, rng *Rng, tier string) {
-	n := 250
+	n := 350
 	if tier == "thorough" {
 		n = 4000
 	}
+	modelOn = true
 	rep.Rule = "seeded histories with snapshots (and snapshots of snapshots) created and closed in every order, iterators abandoned mid-way, collections replaced (SetCollection on an existing name) and removed, stores closed and re-opened, reverts; after every step: no node reachable from any open handle is on the process-wide free list and no node of a current tree carries a reclaim mark (heap dump), full contents of every handle equal the reference; every 5th step an unrelated store allocates more nodes than are free (forcing reuse) and everything is re-read; non-trivial = at least 8 ops with a snapshot or collection replacement"
 	HistoryLoop(rep, rng, n, func(r *Rng, i int) (RunCfg, []Op, string) {
 		rev := r.Chance(1, 4)
@@ -363,7 +368,7 @@ func shapeOracle(w *World, i int, op Op, obs string) *Mismatch {
 }
 
 func checkC13(rep *Report, rng *Rng, tier string) {
-	n := 250
+	n := 350
 	if tier == "thorough" {
 		n = 3000
 	}
@@ -472,7 +477,7 @@ func checkC19(rep *Report, rng *Rng, tier string) {
 		ops := GenHistory(r, g)
 		var out []Op
 		for _, o := range ops {
-			if (o.K == "geti" || o.K == "min" || o.K == "max" || strings.HasPrefix(o.K, "asc") || strings.HasPrefix(o.K, "desc") || strings.HasPrefix(o.K, "it")) && r.Chance(2, 3) {
+			if (o.K == "geti" || o.K == "min" || o.K == "max" || strings.HasPrefix(o.K, "asc") || strings.HasPrefix(o.K, "desc") || strings.HasPrefix(o.K, "it") || o.K == "nasc" || o.K == "ndesc" || o.K == "nit") && r.Chance(2, 3) {
 				o.WV = false
 			}
 			if o.K == "tot" && r.Chance(1, 2) {
